@@ -1,14 +1,17 @@
 """C19 - Uptime estimates are sound for steady clocks and withheld otherwise.
 
-Structural clauses decided (DESIGN.md §5 C19):
+Structural clauses decided:
  R1 bad-frequency marker: both failure arms store the marker under the packet's key; both frequency computations are
     skipped when the stored entry carries the marker (no re-evaluation while the entry lives)
  R2 every cache operation of check_ts_tcp uses one key built from the connection and the direction flag
  R3 interval / frequency guards: constants (25 ms, 600 000 ms, 1 Hz, 1500 Hz) and orientation of each comparison;
-    differences are taken current - reference
+    differences are taken current - reference, modularly
  R4 role rule: decision tables of from_client / from_server / is_packet_from_client; client result only on the
     client branch, server result only on the server branch; labelled Client / Server in the result builders
  R5 a single clock source (SystemTime::now only in get_unix_time_ms)
+ R6 uptime decomposition: days / hours / minutes are floor(t/86400), floor((t mod 86400)/3600), floor((t mod 3600)/60) of
+    t = tsval / frequency; wrap period = u32::MAX / (frequency * 86400)
+ R7 grid snap uses the nearest multiple (round) and the tolerance test
 """
 from ..engine import cfg as C
 from ..engine import decision as D
